@@ -199,6 +199,11 @@ func (c *Ctx) intrinsicPattern(s *State, fr *Frame, x ssa.Instruction, fn *ssa.F
 			}
 		}
 	}
+	if full == "(*sync.WaitGroup).Add" || full == "(*sync.WaitGroup).Done" {
+		// bookkeeping for goroutine lifetimes: no effect on modelled state (same abstraction as mutexes: sequential semantics)
+		c.assumptions["sync.WaitGroup.Add/Done are no-ops (goroutine lifetimes are not modelled)"] = true
+		return nil, true
+	}
 	if strings.HasPrefix(full, "(*sync.Once).") || strings.HasPrefix(full, "(*sync.WaitGroup).") || strings.HasPrefix(full, "(*sync.Cond).") {
 		unsup("sync primitive %s", full)
 	}
